@@ -96,6 +96,12 @@ def outcome(world, results, record):
     }
     spans = [ring.total_len(ring.span(r.location, wrap)) for r in record.get_regions()]
     big = any(2 * s >= length for s in spans)
+    # a protocluster that only existed between the stages (removed as inferior afterwards) with a core of at least
+    # half the record: the structural fact of known finding C07-K1 (the mechanism of C03-K3 seen through rotation)
+    staged = [p for stage in (c03.CAP.post_ext, c03.CAP.pre_removal) for p in (stage or [])]
+    final_ids = {id(p) for p in (c03.CAP.final or [])}
+    out["_intermediate_core_spans_half_record"] = bool(wrap) and any(
+        id(p) not in final_ids and 2 * ring.total_len(ring.span(p.core_location, wrap)) >= length for p in staged)
     del results
     return out, big
 
@@ -220,6 +226,8 @@ def run_world(ctx, world, index):
                     ctx.violate("rotation-changes-" + level,
                                 {"k": k, "cuts": sorted(cuts), "L": world["L"], "base": base_out[level], "rotated": rot_out[level],
                                  "n_protoclusters": n_protos,
+                                 "intermediate_core_spans_half_record": base_out["_intermediate_core_spans_half_record"]
+                                 or rot_out["_intermediate_core_spans_half_record"],
                                  "any_gene_cut": "gene" in cuts}, {"world": world, "rotation": k})
                     break
     # ---- (O) rule order and sub-selection -----------------------------------------------
@@ -370,4 +378,15 @@ def replay(ctx, case):
         instrument.uninstall_all()
 
 
-del findings, G
+@findings.classifier("c07_intermediate_core_spans_half_record")
+def _c07_intermediate_half(clause, facts):
+    """ the mechanism of C03-K3 seen through rotation: a chain / extended core of at least half a circular record gets
+        the hull on the complementary side, which depends on where the origin lies; when that protocluster is itself
+        removed as inferior, only the set of inferior protoclusters it swallowed shows the difference although
+        every reported region is small. Must not hide: rotation dependence without such an intermediate
+        protocluster in either run. """
+    return clause in ("rotation-changes-protoclusters", "rotation-changes-candidates", "rotation-changes-regions") \
+        and facts.get("intermediate_core_spans_half_record") is True
+
+
+del G
